@@ -13,6 +13,8 @@ import (
 var bases = [][]vector2.Float64{
 	{vector2.New(0., 0.), vector2.New(4., 0.), vector2.New(1., 3.)},
 	{vector2.New(0., 0.), vector2.New(1., 0.25), vector2.New(2., 0.), vector2.New(1., 2.)},
+	// a sliver first (its circumcircle has radius 32), then a point inside that circle but far from the sliver
+	{vector2.New(0., 0.), vector2.New(4., 0.25), vector2.New(8., 0.), vector2.New(4., -20.)},
 	{vector2.New(100., 100.), vector2.New(101., 100.5), vector2.New(100.5, 102.)},
 	{vector2.New(0., 0.), vector2.New(0.125, 0.), vector2.New(0., 0.125), vector2.New(8., 8.)},
 	{vector2.New(0., 0.), vector2.New(3., 0.), vector2.New(3., 2.), vector2.New(0., 2.5), vector2.New(1.5, 1.)},
